@@ -253,6 +253,18 @@ def run(ctx):
                    'of its own)', any('value' in p_ and "'int'" in h_ for p_, h_ in explained),
                    f'child causes built for {explained}')
     ctx.require(n_map >= 2, 'no mapping cause finder was interpreted')
+    # an object of the wrong container type is rejected by the generated isinstance test whatever its length: the explanation
+    # must report it too — also when it is empty (nothing to sample)
+    n_wrong = 0
+    for length in (0, 5):
+        for finder, mmod, tag, is_tf, n_, kids, log in container_finder_runs(ctx, origin_ok=False, length=length):
+            n_wrong += 1
+            res = [w for k, w in log if k == 'result']
+            ctx.ob('C03.R3', f'origin-first:{"empty" if n_ == 0 else "non-empty"}:{tag}', mmod.where(finder.node),
+                   'an object that is not an instance of the origin type is explained as such, whatever it contains', res == ['cause-found'],
+                   f'the finder answers {res} for {"an empty" if n_ == 0 else "a"} object of the wrong type (check and explanation disagree: '
+                   f'the private desynchronisation error is raised)')
+    ctx.require(n_wrong >= 8, f'only {n_wrong} wrong-type scenarios interpreted')
     ctx.assume('a mapping\'s items() view is consistent with its __iter__ and __getitem__ (first key / its value)')
     # literal: explanation consults all literals
     lm = ctx.repo.mod('beartype._check.error._pep.errpep586')
